@@ -27,6 +27,10 @@
 #include <stdlib.h>
 #include <stdio.h>
 #include <stdbool.h>
+#include <fcntl.h>
+#ifndef _WIN32
+#include <unistd.h>
+#endif
 #include <zck.h>
 
 #include "util_common.h"
@@ -34,4 +38,17 @@
 void version() {
     printf(ZCK_NAME " " ZCK_VERSION "\nCopyright (c) " ZCK_COPYRIGHT_YEAR
            " Jonathan Dieter\n");
+}
+
+/* Make sure descriptors 0, 1 and 2 are taken, so a file opened later cannot
+ * end up on stdin, stdout or stderr when the caller started us with one of
+ * them closed: diagnostics go to descriptor 2 and would be written into it */
+void reserve_std_fds() {
+#ifndef _WIN32
+    int fd = open("/dev/null", O_RDWR);
+    while(fd >= 0 && fd <= STDERR_FILENO)
+        fd = open("/dev/null", O_RDWR);
+    if(fd > STDERR_FILENO)
+        close(fd);
+#endif
 }
